@@ -16,6 +16,10 @@ def own_tree(nd: tg.Node, v: t.Any) -> t.Any:
     if k == 'ok':
         return None
     if k == 'ce':
+        try:
+            str(r)      # users look at the message first; looking must not change the tree that is inspected afterwards
+        except Exception:
+            pass
         return r.tree
     raise r
 
